@@ -5,6 +5,9 @@
 //   config = ss_<cmp>           etl::static_set<int, cap, Cmp>
 //            fsv_<cmp>          etl::flat_set<int, etl::static_vector<int, cap>, Cmp>
 //            fip_<cmp>          etl::flat_set<int, ipv_vector<int, cap>, Cmp>   (adaptor over etl::inplace_vector)
+//            fsd_dyn            etl::flat_set<int, etl::static_vector<int, cap>, dyn_less>: a comparator with run-time
+//                               state; s is constructed with dyn_less{ascending}, the swap partner t with
+//                               dyn_less{descending} (reference: std::set<int, dyn_less> constructed the same way)
 //            sst_<cmp>, fst_<cmp>  static_set / flat_set over static_vector with the TRACKED key type TK: a
 //                               non-trivial element (user-provided copy/move/destructor) that counts live
 //                               objects and flags every use of a moved-from or destroyed value; after every
@@ -101,6 +104,17 @@ concept KeyLike = std::is_same_v<T, int> || std::is_same_v<T, TK>;
 struct half_less {
     template <KeyLike X, KeyLike Y>
     auto operator()(X const& a, Y const& b) const -> bool { return as_int(a) / 2 < as_int(b) / 2; }
+};
+
+// a comparator with run-time state: flat_set stores it (_compare), copies it on copy assignment and
+// exchanges it on swap; the constructors without a comparator argument default-construct it (ascending)
+struct dyn_less {
+    bool desc = false;
+    template <KeyLike X, KeyLike Y>
+    auto operator()(X const& a, Y const& b) const -> bool
+    {
+        return desc ? as_int(b) < as_int(a) : as_int(a) < as_int(b);
+    }
 };
 
 // heterogeneous keys for the transparent comparator: a point and a band [lo, hi]
@@ -321,15 +335,22 @@ void observers(Out& o, S& s, S& t, std::size_t cap)
         if (w1 != fw || w2 != fw || w3 != fw || w4 != fw || w5 != fw) { o.tok("iteration-differs"); }
         auto kc = cs.key_comp();
         auto vc = cs.value_comp();
-        typename S::key_compare fresh{};
-        for (int a = 0; a <= 5; ++a) {
-            for (int b = 0; b <= 5; ++b) {
-                using V = typename S::value_type;
-                if (kc(V(a), V(b)) != fresh(V(a), V(b)) || vc(V(a), V(b)) != fresh(V(a), V(b))) { o.tok("key-comp-differs"); }
+        if constexpr (std::is_same_v<typename S::key_compare, dyn_less>) {
+            if (kc.desc != vc.desc) { o.tok("key-comp-differs"); }
+        } else {
+            typename S::key_compare fresh{};
+            for (int a = 0; a <= 5; ++a) {
+                for (int b = 0; b <= 5; ++b) {
+                    using V = typename S::value_type;
+                    if (kc(V(a), V(b)) != fresh(V(a), V(b)) || vc(V(a), V(b)) != fresh(V(a), V(b))) { o.tok("key-comp-differs"); }
+                }
             }
         }
     } else {
         o.b(cs.size() == cap).num(static_cast<i64>(cap)); // std::set: the bound of the property
+    }
+    if constexpr (std::is_same_v<typename S::key_compare, dyn_less>) {
+        o.tok("D").b(cs.key_comp().desc); // which order the current set holds now
     }
     for (int q = 0; q <= 5; ++q) {
         o.tok("q");
@@ -358,8 +379,16 @@ void run_impl(Toks in, Out& out, std::size_t cap)
     TK::live = 0;
     TK::bad  = 0;
     {
-    S s{};
-    S t{};
+    auto mk = [](bool second) {
+        if constexpr (std::is_same_v<typename S::key_compare, dyn_less>) {
+            return S(dyn_less{second}); // flat_set(Compare const&)
+        } else {
+            (void)second;
+            return S{};
+        }
+    };
+    S s = mk(false);
+    S t = mk(true);
     bool stopped = false;
     while (in.more() && !stopped) {
         std::string code = in.str();
@@ -478,8 +507,16 @@ void run_impl(Toks in, Out& out, std::size_t cap)
 template <Kind K, typename R, typename Cmp, bool Transparent>
 void run_ref(Toks in, Out& out, std::size_t cap)
 {
-    R s{};
-    R t{};
+    auto mk = [](bool second) {
+        if constexpr (std::is_same_v<Cmp, dyn_less>) {
+            return R(dyn_less{second});
+        } else {
+            (void)second;
+            return R{};
+        }
+    };
+    R s = mk(false);
+    R t = mk(true);
     bool na      = false;
     bool stopped = false;
     // insert under the capacity rule of the property: 0 = done, 1 = full (failure reported, unchanged)
@@ -536,11 +573,17 @@ void run_ref(Toks in, Out& out, std::size_t cap)
             s = tmp;
         } else if (code == "cp") {
             s = t;
-        } else if (code == "asu" || code == "rp" || code == "asui") {
+        } else if (code == "asu" || code == "asui") {
             auto ks = in.list();
             std::vector<int> v(ks.begin(), ks.end());
             if (K != Kind::flat_set || v.size() > cap || !sorted_unique_under(v, Cmp{})) { na = true; break; }
-            s = R(v.begin(), v.end());
+            s = R(v.begin(), v.end()); // a new set: default-constructed comparator
+        } else if (code == "rp") {
+            auto ks = in.list();
+            std::vector<int> v(ks.begin(), ks.end());
+            if (K != Kind::flat_set || v.size() > cap || !sorted_unique_under(v, s.key_comp())) { na = true; break; }
+            s.clear(); // the set keeps its comparator
+            s.insert(v.begin(), v.end());
         } else if (code == "ek") {
             step.num(static_cast<i64>(s.erase(static_cast<int>(in.num()))));
         } else if (code == "ep") {
@@ -611,6 +654,7 @@ bool dispatch_cap(std::string const& fam, Toks& in, Out& impl, Out& ref)
         run_ref<Kind::flat_set, R, StdCmp, Transparent>(in, ref, Cap);
         return true;
     }
+    if constexpr (Cap == 3 || Cap == 4 || Cap == 8) {
     if (fam == "sst") {
         using S = etl::static_set<TK, Cap, TkCmp>;
         run_impl<Kind::static_set, S, void, Transparent>(in, impl, Cap);
@@ -624,6 +668,7 @@ bool dispatch_cap(std::string const& fam, Toks& in, Out& impl, Out& ref)
         run_ref<Kind::flat_set, R, StdCmp, Transparent>(in, ref, Cap);
         return true;
     }
+    }
     return false;
 }
 
@@ -632,12 +677,12 @@ bool dispatch(std::string const& fam, Toks& in, Out& impl, Out& ref)
 {
     auto cap = in.num();
     switch (cap) {
+    case 0: return dispatch_cap<EtlCmp, TkCmp, StdCmp, Transparent, 0>(fam, in, impl, ref); // zero-size storage
     case 1: return dispatch_cap<EtlCmp, TkCmp, StdCmp, Transparent, 1>(fam, in, impl, ref);
     case 3: return dispatch_cap<EtlCmp, TkCmp, StdCmp, Transparent, 3>(fam, in, impl, ref);
     case 4: return dispatch_cap<EtlCmp, TkCmp, StdCmp, Transparent, 4>(fam, in, impl, ref);
     case 8: return dispatch_cap<EtlCmp, TkCmp, StdCmp, Transparent, 8>(fam, in, impl, ref);
-    case 2: return dispatch_cap<EtlCmp, TkCmp, StdCmp, Transparent, 2>(fam, in, impl, ref);
-    case 5: return dispatch_cap<EtlCmp, TkCmp, StdCmp, Transparent, 5>(fam, in, impl, ref);
+
     default: return false;
     }
 }
@@ -653,6 +698,28 @@ void multiset_case(Toks& in, Out& impl, Out& ref)
         o.tok("ok");
         o.list(ms.begin(), ms.end());
         o.num(static_cast<i64>(ms.size())).b(ms.empty());
+        // the other constructors and iterator flavours: sorted_equivalent takes the container as it is,
+        // the default / comparator constructors give an empty multiset
+        auto walk = [](auto f, auto l) {
+            std::vector<int> r;
+            for (; f != l; ++f) { r.push_back(*f); }
+            return r;
+        };
+        auto fw         = walk(ms.begin(), ms.end());
+        auto const& cms = ms;
+        auto w1 = walk(cms.begin(), cms.end()), w2 = walk(cms.cbegin(), cms.cend()), w3 = walk(ms.rbegin(), ms.rend()),
+             w4 = walk(cms.rbegin(), cms.rend()), w5 = walk(cms.crbegin(), cms.crend());
+        std::reverse(w3.begin(), w3.end());
+        std::reverse(w4.begin(), w4.end());
+        std::reverse(w5.begin(), w5.end());
+        if (w1 != fw || w2 != fw || w3 != fw || w4 != fw || w5 != fw) { o.tok("iteration-differs"); }
+        auto se = etl::flat_multiset<int, C, EtlCmp>(etl::sorted_equivalent, C(fw.data(), fw.data() + fw.size()));
+        if (walk(se.begin(), se.end()) != fw || se.size() != ms.size()) { o.tok("sorted-equivalent-differs"); }
+        auto raw = etl::flat_multiset<int, C, EtlCmp>(etl::sorted_equivalent, C(v.data(), v.data() + v.size()));
+        if (walk(raw.begin(), raw.end()) != v) { o.tok("sorted-equivalent-differs"); }
+        etl::flat_multiset<int, C, EtlCmp> e1{};
+        etl::flat_multiset<int, C, EtlCmp> e2{EtlCmp{}};
+        if (!e1.empty() || e1.size() != 0 || !e2.empty() || e1.max_size() != 8 || ms.max_size() != 8) { o.tok("empty-differs"); }
     });
     if (v.size() > 8) { return; }
     // std::multiset inserts at the upper bound: the stable arrangement
@@ -664,24 +731,83 @@ void multiset_case(Toks& in, Out& impl, Out& ref)
 
 } // namespace
 
+// ---- entry points, one per comparator, so that props/C09/pcxx.py can compile them as separate
+// translation units in parallel (-DC09_PART=k); without C09_PART this file is one ordinary program ----
+#ifndef C09_PART
+#define C09_PART (-1)
+#endif
+#define C09_HAS(k) (C09_PART == -1 || C09_PART == (k))
+
+namespace c09 {
+bool part_less(std::string const& fam, Toks& in, Out& impl, Out& ref);
+bool part_greater(std::string const& fam, Toks& in, Out& impl, Out& ref);
+bool part_tless(std::string const& fam, Toks& in, Out& impl, Out& ref);
+bool part_half(std::string const& fam, Toks& in, Out& impl, Out& ref);
+bool part_dyn(std::string const& fam, Toks& in, Out& impl, Out& ref);
+} // namespace c09
+
+#if C09_HAS(0)
+bool c09::part_less(std::string const& fam, Toks& in, Out& impl, Out& ref)
+{
+    if (fam == "fms") { multiset_case<etl::less<int>, std::less<int>>(in, impl, ref); return true; }
+    return dispatch<etl::less<int>, etl::less<TK>, std::less<int>, false>(fam, in, impl, ref);
+}
+#endif
+#if C09_HAS(1)
+bool c09::part_greater(std::string const& fam, Toks& in, Out& impl, Out& ref)
+{
+    if (fam == "fms") { multiset_case<etl::greater<int>, std::greater<int>>(in, impl, ref); return true; }
+    return dispatch<etl::greater<int>, etl::greater<TK>, std::greater<int>, false>(fam, in, impl, ref);
+}
+bool c09::part_dyn(std::string const& fam, Toks& in, Out& impl, Out& ref)
+{
+    if (fam != "fsd") { return false; }
+    auto go = [&]<std::size_t Cap>() {
+        using C = etl::static_vector<int, Cap>;
+        using S = etl::flat_set<int, C, dyn_less>;
+        using R = std::set<int, dyn_less>;
+        run_impl<Kind::flat_set, S, C, false>(in, impl, Cap);
+        run_ref<Kind::flat_set, R, dyn_less, false>(in, ref, Cap);
+        return true;
+    };
+    switch (in.num()) {
+    case 2: return go.template operator()<2>();
+    case 3: return go.template operator()<3>();
+    case 4: return go.template operator()<4>();
+    case 8: return go.template operator()<8>();
+    default: return false;
+    }
+}
+#endif
+#if C09_HAS(2)
+bool c09::part_tless(std::string const& fam, Toks& in, Out& impl, Out& ref)
+{
+    if (fam == "fms") { multiset_case<etl::less<>, std::less<>>(in, impl, ref); return true; }
+    return dispatch<etl::less<>, etl::less<>, std::less<>, true>(fam, in, impl, ref);
+}
+#endif
+#if C09_HAS(3)
+bool c09::part_half(std::string const& fam, Toks& in, Out& impl, Out& ref)
+{
+    if (fam == "fms") { multiset_case<half_less, half_less>(in, impl, ref); return true; }
+    return dispatch<half_less, half_less, half_less, false>(fam, in, impl, ref);
+}
+#endif
+
+#if C09_HAS(0)
 bool vh::run_case(std::string const& op, Toks& in, Out& impl, Out& ref)
 {
     auto us = op.find('_');
     if (us == std::string::npos) { return false; }
     auto fam = op.substr(0, us);
     auto cmp = op.substr(us + 1);
-    if (fam == "fms") {
-        if (cmp == "less") { multiset_case<etl::less<int>, std::less<int>>(in, impl, ref); return true; }
-        if (cmp == "greater") { multiset_case<etl::greater<int>, std::greater<int>>(in, impl, ref); return true; }
-        if (cmp == "tless") { multiset_case<etl::less<>, std::less<>>(in, impl, ref); return true; }
-        if (cmp == "half") { multiset_case<half_less, half_less>(in, impl, ref); return true; }
-        return false;
-    }
-    if (cmp == "less") { return dispatch<etl::less<int>, etl::less<TK>, std::less<int>, false>(fam, in, impl, ref); }
-    if (cmp == "greater") { return dispatch<etl::greater<int>, etl::greater<TK>, std::greater<int>, false>(fam, in, impl, ref); }
-    if (cmp == "tless") { return dispatch<etl::less<>, etl::less<>, std::less<>, true>(fam, in, impl, ref); }
-    if (cmp == "half") { return dispatch<half_less, half_less, half_less, false>(fam, in, impl, ref); }
+    if (cmp == "less") { return c09::part_less(fam, in, impl, ref); }
+    if (cmp == "greater") { return c09::part_greater(fam, in, impl, ref); }
+    if (cmp == "tless") { return c09::part_tless(fam, in, impl, ref); }
+    if (cmp == "half") { return c09::part_half(fam, in, impl, ref); }
+    if (cmp == "dyn") { return c09::part_dyn(fam, in, impl, ref); }
     return false;
 }
 
 VERIF_MAIN()
+#endif
